@@ -34,19 +34,108 @@ pub trait Scenario: Sync {
     }
 }
 
-pub struct Replayed<M> {
-    pub world: World,
+/// What the search needs from any closed world (pumped or full-session).
+pub trait Sys: Sync {
+    type W;
+    type Mon: Default;
+    fn name(&self) -> String;
+    fn explore_choices(&self) -> bool;
+    /// Fresh real objects in their initial state (prefix events already applied).
+    fn build(&self, dir: &PathBuf) -> (Self::W, Self::Mon);
+    /// The world cannot take further events (e.g. the manager died).
+    fn dead(&self, w: &Self::W) -> bool;
+    fn enabled(&self, w: &Self::W, mon: &Self::Mon, depth: usize) -> Vec<String>;
+    /// Execute one symbolic event; returns the choice points met: (arity, digit, group, is_shuffle).
+    fn apply(&self, w: &mut Self::W, mon: &Self::Mon, sym: &str, digits: &[usize], verbose: bool) -> Vec<(usize, usize, usize, bool)>;
+    fn check(&self, w: &Self::W, mon: &mut Self::Mon, last: Option<&str>) -> Option<(&'static str, String)>;
+    fn key(&self, w: &Self::W, mon: &Self::Mon) -> String;
+    fn tags(&self, _w: &Self::W, _mon: &Self::Mon) -> Vec<&'static str> {
+        vec![]
+    }
+    /// Extra obligation for states the search does not expand (no event enabled, or depth bound
+    /// reached); may run the world forward (e.g. "the fair continuation completes the download").
+    fn final_check(&self, _w: &mut Self::W, _mon: &mut Self::Mon, _verbose: bool) -> Option<(&'static str, String)> {
+        None
+    }
+}
+
+impl<T: Scenario> Sys for T {
+    type W = World;
+    type Mon = <T as Scenario>::Mon;
+    fn name(&self) -> String {
+        Scenario::name(self)
+    }
+    fn explore_choices(&self) -> bool {
+        Scenario::explore_choices(self)
+    }
+    fn build(&self, dir: &PathBuf) -> (World, Self::Mon) {
+        let cfg = self.cfg();
+        let mut world = World::new(&cfg, dir);
+        let mut mon = <T as Scenario>::Mon::default();
+        self.setup(&mut world, &mut mon);
+        (world, mon)
+    }
+    fn dead(&self, w: &World) -> bool {
+        w.dead.is_some()
+    }
+    fn enabled(&self, w: &World, mon: &Self::Mon, depth: usize) -> Vec<String> {
+        Scenario::enabled(self, w, mon, depth)
+    }
+    fn apply(&self, world: &mut World, mon: &Self::Mon, sym: &str, digits: &[usize], verbose: bool) -> Vec<(usize, usize, usize, bool)> {
+        let evs = self.concretize(world, mon, sym);
+        let mut choice_log = vec![];
+        let mut used = 0;
+        for ev in &evs {
+            // the scripted digits are consumed in order over the sub-steps of one event
+            world.step(ev, &digits[used.min(digits.len())..]);
+            used += world.choice_log.len();
+            let offset = choice_log.last().map(|l: &(usize, usize, usize, bool)| l.2 + 1).unwrap_or(0);
+            for (l, g) in world.choice_log.iter().zip(world.choice_groups.iter()) {
+                choice_log.push((l.0, l.1, g.0 + offset, g.1));
+            }
+        }
+        if verbose {
+            let evs: Vec<String> = evs
+                .iter()
+                .map(|ev| match ev {
+                    Ev::Feed(i, b) => format!("Feed({}, {} bytes: {:?})", i, b.len(), crate::refwire::decode_stream(b).0.iter().map(|m| m.short()).collect::<Vec<_>>()),
+                    other => format!("{:?}", other),
+                })
+                .collect();
+            println!("== {} {:?} -> {:?}", sym, digits, evs);
+            println!("   manager handled: {:?}", world.cmds);
+            for i in 0..world.peers.len() {
+                if !world.new_msgs(i).is_empty() {
+                    println!("   client wrote to peer {}: {:?}", i, world.new_msgs(i).iter().map(|m| m.short()).collect::<Vec<_>>());
+                }
+            }
+            if let Some(d) = &world.dead {
+                println!("   MANAGER DEAD: {}", d);
+            }
+        }
+        choice_log
+    }
+    fn check(&self, w: &World, mon: &mut Self::Mon, last: Option<&str>) -> Option<(&'static str, String)> {
+        Scenario::check(self, w, mon, last)
+    }
+    fn key(&self, w: &World, mon: &Self::Mon) -> String {
+        Scenario::key(self, w, mon)
+    }
+    fn tags(&self, w: &World, mon: &Self::Mon) -> Vec<&'static str> {
+        Scenario::tags(self, w, mon)
+    }
+}
+
+pub struct Replayed<W, M> {
+    pub world: W,
     pub mon: M,
     pub violation: Option<(&'static str, String)>,
     /// Choice points of the last event: (arity, digit taken, group, group is a shuffle).
     pub choice_log: Vec<(usize, usize, usize, bool)>,
 }
 
-pub fn replay<S: Scenario>(s: &S, dir: &PathBuf, hist: &[Step], verbose: bool) -> Replayed<S::Mon> {
-    let cfg = s.cfg();
-    let mut world = World::new(&cfg, dir);
-    let mut mon = S::Mon::default();
-    s.setup(&mut world, &mut mon);
+pub fn replay<S: Sys>(s: &S, dir: &PathBuf, hist: &[Step], verbose: bool) -> Replayed<S::W, S::Mon> {
+    let (mut world, mut mon) = s.build(dir);
     let mut violation = s.check(&world, &mut mon, None);
     let mut choice_log = vec![];
     if verbose {
@@ -54,39 +143,11 @@ pub fn replay<S: Scenario>(s: &S, dir: &PathBuf, hist: &[Step], verbose: bool) -
     }
     if violation.is_none() {
         for (sym, digits) in hist {
-            let evs = s.concretize(&world, &mon, sym);
-            choice_log = vec![];
-            let mut used = 0;
-            for ev in &evs {
-                // the scripted digits are consumed in order over the sub-steps of one event
-                world.step(ev, &digits[used.min(digits.len())..]);
-                used += world.choice_log.len();
-                let offset = choice_log.last().map(|l: &(usize, usize, usize, bool)| l.2 + 1).unwrap_or(0);
-                for (l, g) in world.choice_log.iter().zip(world.choice_groups.iter()) {
-                    choice_log.push((l.0, l.1, g.0 + offset, g.1));
-                }
-            }
+            choice_log = s.apply(&mut world, &mon, sym, digits, verbose);
             violation = s.check(&world, &mut mon, Some(sym));
             if verbose {
-                let evs: Vec<String> = evs
-                    .iter()
-                    .map(|ev| match ev {
-                        Ev::Feed(i, b) => format!("Feed({}, {} bytes: {:?})", i, b.len(), crate::refwire::decode_stream(b).0.iter().map(|m| m.short()).collect::<Vec<_>>()),
-                        other => format!("{:?}", other),
-                    })
-                    .collect();
-                println!("== {} {:?} -> {:?}", sym, digits, evs);
-                println!("   manager handled: {:?}", world.cmds);
-                for i in 0..world.peers.len() {
-                    if !world.new_msgs(i).is_empty() {
-                        println!("   client wrote to peer {}: {:?}", i, world.new_msgs(i).iter().map(|m| m.short()).collect::<Vec<_>>());
-                    }
-                }
                 println!("   state: {}", s.key(&world, &mon));
                 println!("   situations: {:?}", s.tags(&world, &mon));
-                if let Some(d) = &world.dead {
-                    println!("   MANAGER DEAD: {}", d);
-                }
             }
             if violation.is_some() {
                 break;
@@ -170,11 +231,11 @@ fn group_alternatives(arities: &[usize], is_shuffle: bool) -> Vec<Vec<usize>> {
 }
 
 /// Run (hist + sym) for every alternative of every choice group met in the last event.
-fn expand_child<S: Scenario>(s: &S, dir: &PathBuf, hist: &[Step], sym: &str, depth: usize, out: &mut Vec<Child>, execs: &mut u64, choice_points: &mut u64) {
-    fn rec<S: Scenario>(s: &S, dir: &PathBuf, hist: &[Step], sym: &str, prefix: Vec<usize>, group_idx: usize, depth: usize, out: &mut Vec<Child>, execs: &mut u64, choice_points: &mut u64) {
+fn expand_child<S: Sys>(s: &S, dir: &PathBuf, hist: &[Step], sym: &str, depth: usize, max_depth: usize, out: &mut Vec<Child>, execs: &mut u64, choice_points: &mut u64) {
+    fn rec<S: Sys>(s: &S, dir: &PathBuf, hist: &[Step], sym: &str, prefix: Vec<usize>, group_idx: usize, depth: usize, max_depth: usize, out: &mut Vec<Child>, execs: &mut u64, choice_points: &mut u64) {
         let mut h = hist.to_vec();
         h.push((sym.to_string(), prefix.clone()));
-        let r = replay(s, dir, &h, false);
+        let mut r = replay(s, dir, &h, false);
         *execs += 1;
         let log = r.choice_log.clone();
         // split the log into groups
@@ -188,8 +249,14 @@ fn expand_child<S: Scenario>(s: &S, dir: &PathBuf, hist: &[Step], sym: &str, dep
         if !s.explore_choices() || group_idx >= groups.len() {
             let taken: Vec<usize> = log.iter().map(|l| l.1).collect();
             h.last_mut().unwrap().1 = if s.explore_choices() { taken } else { vec![] };
-            let enabled = if r.violation.is_some() || r.world.dead.is_some() { vec![] } else { s.enabled(&r.world, &r.mon, depth + 1) };
-            out.push(Child { key: s.key(&r.world, &r.mon), tags: s.tags(&r.world, &r.mon), hist: h, enabled, violation: r.violation });
+            let enabled = if r.violation.is_some() || s.dead(&r.world) { vec![] } else { s.enabled(&r.world, &r.mon, depth + 1) };
+            let key = s.key(&r.world, &r.mon);
+            let tags = s.tags(&r.world, &r.mon);
+            let mut violation = r.violation.take();
+            if violation.is_none() && !s.dead(&r.world) && (enabled.is_empty() || depth + 1 >= max_depth) {
+                violation = s.final_check(&mut r.world, &mut r.mon, false);
+            }
+            out.push(Child { key, tags, hist: h, enabled, violation });
             return;
         }
         let (start, len, is_shuffle) = groups[group_idx];
@@ -199,10 +266,10 @@ fn expand_child<S: Scenario>(s: &S, dir: &PathBuf, hist: &[Step], sym: &str, dep
         for alt in group_alternatives(&arities, is_shuffle) {
             let mut p: Vec<usize> = log[..start].iter().map(|l| l.1).collect();
             p.extend(alt);
-            rec(s, dir, hist, sym, p, group_idx + 1, depth, out, execs, choice_points);
+            rec(s, dir, hist, sym, p, group_idx + 1, depth, max_depth, out, execs, choice_points);
         }
     }
-    rec(s, dir, hist, sym, vec![], 0, depth, out, execs, choice_points);
+    rec(s, dir, hist, sym, vec![], 0, depth, max_depth, out, execs, choice_points);
 }
 
 pub fn hist_json(h: &[Step]) -> Value {
@@ -223,13 +290,16 @@ pub fn hist_from_json(v: &Value) -> Vec<Step> {
 
 /// Breadth-first search to `max_depth` events. Violations are reported to `ctx` with a replayable
 /// history; a violating or dead state is not expanded further.
-pub fn bfs<S: Scenario>(ctx: &Ctx, s: &S, max_depth: usize, det_every: u64) -> Stats {
+pub fn bfs<S: Sys>(ctx: &Ctx, s: &S, max_depth: usize, det_every: u64) -> Stats {
     let mut stats = Stats { exhaustive: true, ..Default::default() };
     let scen = s.name();
     // root
     let root_dir = core::private_cwd("bfs", &format!("root-{}", scen.replace(|c: char| !c.is_alphanumeric(), "_")));
-    let r = replay(s, &root_dir, &[], false);
+    let mut r = replay(s, &root_dir, &[], false);
     stats.executions += 1;
+    if r.violation.is_none() && s.enabled(&r.world, &r.mon, 0).is_empty() {
+        r.violation = s.final_check(&mut r.world, &mut r.mon, false);
+    }
     if let Some((class, why)) = &r.violation {
         ctx.violation(class, format!("[{}] initial state: {}", scen, why), json!({"scenario": scen, "history": []}));
         stats.violations += 1;
@@ -267,7 +337,7 @@ pub fn bfs<S: Scenario>(ctx: &Ctx, s: &S, max_depth: usize, det_every: u64) -> S
                 let mut out = vec![];
                 let mut execs = 0;
                 let mut cps = 0;
-                expand_child(s, dir, &node.hist, &node.enabled[*e], depth, &mut out, &mut execs, &mut cps);
+                expand_child(s, dir, &node.hist, &node.enabled[*e], depth, max_depth, &mut out, &mut execs, &mut cps);
                 let mut det = 0;
                 if det_every > 0 && (idx as u64) % det_every == 0 {
                     for c in out.iter().take(1) {
@@ -322,11 +392,15 @@ pub fn bfs<S: Scenario>(ctx: &Ctx, s: &S, max_depth: usize, det_every: u64) -> S
 }
 
 /// Re-execute one recorded history step by step, printing everything.
-pub fn replay_verbose<S: Scenario>(s: &S, hist: &[Step], property: &str) -> i32 {
+pub fn replay_verbose<S: Sys>(s: &S, hist: &[Step], property: &str) -> i32 {
     let dir = core::private_cwd("bfs", "replay");
     core::set_quiet_panics(true);
     println!("scenario {} history {:?}", s.name(), hist);
-    let r = replay(s, &dir, hist, true);
+    let mut r = replay(s, &dir, hist, true);
+    if r.violation.is_none() && !s.dead(&r.world) {
+        println!("-- obligation for unexpanded states (fair continuation etc.):");
+        r.violation = s.final_check(&mut r.world, &mut r.mon, true);
+    }
     match r.violation {
         Some((class, why)) => {
             println!("VIOLATION property={} replay=<this file>\n  class={} {}", property, class, why);
